@@ -81,14 +81,20 @@ func genCPE22(t *rapid.T, label string) string {
 		":" + rapid.StringMatching(`[0-9]\.[0-9]`).Draw(t, label+".v")
 }
 
-// hashValue draws schema-valid hash contents.
-func hashValue(t *rapid.T, label string, other *rapid.Generator[string]) string {
-	// (contents outside the schema pattern are exercised by the totality checks C04 / C07: a document carrying one may be
-	// refused by a validating reader, so round-trip and translation generators stay inside the pattern)
-	_ = other
-	n := rapid.SampledFrom([]int{32, 40, 64, 96, 128}).Draw(t, label+".len")
+// hashValue draws a well-formed digest of the given algorithm: hexadecimal, of the algorithm's output length.
+func hashValue(t *rapid.T, label string, algo int32) string {
+	// (contents that are no digest of their algorithm - other text, another length - are exercised by the totality checks
+	// C04 / C07: a validating writer or reader may leave such an entry out or refuse the document, so the round-trip and
+	// translation generators stay inside what every format calls a checksum of that algorithm)
+	n, ok := digestHexLen[algo]
+	if !ok {
+		n = 64
+	}
 	return rapid.StringOfN(rapid.RuneFrom([]rune("0123456789abcdefABCDEF")), n, n, -1).Draw(t, label+".hex")
 }
+
+// hexadecimal digits of a digest, per sbom.HashAlgorithm number (variable-length algorithms: their common 256-bit form)
+var digestHexLen = map[int32]int{1: 32, 2: 40, 3: 64, 4: 96, 5: 128, 6: 64, 7: 96, 8: 128, 9: 64, 10: 96, 11: 128, 12: 64, 13: 32, 14: 8, 15: 32, 16: 64, 17: 56}
 
 // the seven lifecycle phases protobom maps
 var cdxLifecycleTypes = []sbom.DocumentType_SBOMType{sbom.DocumentType_DESIGN, sbom.DocumentType_SOURCE, sbom.DocumentType_BUILD,
@@ -132,7 +138,8 @@ func genCDXNode(t *rapid.T, id string) *sbom.Node {
 		if n.Hashes == nil {
 			n.Hashes = map[int32]string{}
 		}
-		n.Hashes[int32(rapid.IntRange(0, 17).Draw(t, "algo"))] = hashValue(t, "hv", tx)
+		algo := int32(rapid.IntRange(0, 17).Draw(t, "algo"))
+		n.Hashes[algo] = hashValue(t, "hv", algo)
 	}
 	if rapid.Bool().Draw(t, "haspurl") {
 		n.Identifiers = map[int32]string{1: genPurl(t, "purl")}
@@ -153,7 +160,8 @@ func genCDXNode(t *rapid.T, id string) *sbom.Node {
 			if er.Hashes == nil {
 				er.Hashes = map[int32]string{}
 			}
-			er.Hashes[int32(rapid.IntRange(0, 17).Draw(t, "eralgo"))] = hashValue(t, "erhv", tx)
+			eralgo := int32(rapid.IntRange(0, 17).Draw(t, "eralgo"))
+			er.Hashes[eralgo] = hashValue(t, "erhv", eralgo)
 		}
 		n.ExternalReferences = append(n.ExternalReferences, er)
 	}
